@@ -7,7 +7,7 @@
 (*          {"e":"WriteBegin","id":n,"len":n}              before writeMessage()                   *)
 (*          {"e":"WriteEnd","res":"ok"|"exception","log":P} after writeMessage() returned          *)
 (*          {"e":"Close","log":P}                          policy object destroyed                 *)
-(*          {"e":"Crash","log":P}                          injected death after a rename           *)
+(*          {"e":"Kill","log":P}                           injected death after a rename           *)
 (* P = files on disk, ascending generation: [{"g":n,"ids":[..],"lens":[..],"bytes":n,"tail":n},..] *)
 (*     ids/lens = the complete lines, tail = bytes after the last newline.                         *)
 (* Every event has at most one successor state, so the number of generated states locates a       *)
@@ -37,7 +37,7 @@ TNext == /\ l <= Len(Log) /\ l' = l + 1
             \/ Ev.e = "WriteBegin" /\ Ev.id = nid /\ Ev.len >= 0 /\ WriteBegin(Ev.len)
             \/ Ev.e = "WriteEnd" /\ Ev.res = "ok" /\ (\E roll \in BOOLEAN : WriteEnd(roll)) /\ ProjOK(ex', files')
             \/ Ev.e = "Close" /\ Close /\ ProjOK(ex', files')
-            \/ Ev.e = "Crash" /\ Crash /\ ProjOK(ex', files')
+            \/ Ev.e = "Kill" /\ Crash /\ ProjOK(ex', files')
             \/ /\ Ev.e = "Reset" /\ Ev.kind \in {"counted", "maxsize", "simple"} /\ Ev.G >= 1
                /\ kind' = Ev.kind /\ limit' = Ev.limit /\ G' = Ev.G
                /\ ex' = {} /\ files' = [g \in 0..Ev.G-1 |-> <<>>]
